@@ -13,6 +13,7 @@ import os
 import sys
 import time
 import traceback
+from time import monotonic as _real_monotonic  # bound before any clock patching
 
 from .seqcheck import jsonable, merge, new_result, replay_hash
 
@@ -121,14 +122,14 @@ def write_replay(pid, v):
 
 
 def check(pid, tier, seed, workers=None, out=sys.stdout):
-    t0 = time.monotonic()
+    t0 = _real_monotonic()
     mod = prop_module(pid)
     tasks = mod.tasks(tier)
     for i, t in enumerate(tasks):
         t.setdefault("index", i)
         t["tier"] = tier
     total, errors = run_tasks(pid, tasks, seed, workers)
-    wall = time.monotonic() - t0
+    wall = _real_monotonic() - t0
     findings = [f for f in load_findings() if f["property"] == pid]
     known = {f["key"]: f for f in findings if f["status"] == "finding"}
     rc = 0
